@@ -1030,6 +1030,9 @@ def sum(x, axis=None, keepdims=False, dtype=None):
     x = _A(x)
     if x.a.size == 0 and axis is None:
         return Sym.const(0)
+    if dtype is not None and _norm_dt(dtype) == _F and x.dt not in (_F, _I, _B):
+        # numpy casts the operands to the requested dtype first: complex -> float drops the imaginary parts (ComplexWarning)
+        x = x.astype(_F)
     r = _np.sum(x.a, axis=axis, keepdims=keepdims)
     if isinstance(r, _np.ndarray):
         return SymArray(r, x.dt if x.dt != _B else _I)
